@@ -26,6 +26,21 @@ fn main() {
                 None => print!("{}", out),
             }
         }
+        Some("dump-cjk") => {
+            let out = dump::cjk_tables_lean();
+            match args.get(2) {
+                Some(path) => {
+                    let old = std::fs::read_to_string(path).unwrap_or_default();
+                    if old != out {
+                        std::fs::write(path, out).expect("write cjk tables");
+                        println!("cjk tables: rewritten {}", path);
+                    } else {
+                        println!("cjk tables: unchanged");
+                    }
+                }
+                None => print!("{}", out),
+            }
+        }
         Some("dump-inventory") => {
             let out = inventory::inventory_lean("/repo");
             match args.get(2) {
@@ -72,6 +87,11 @@ fn main() {
             let seed: u64 = args[2].parse().unwrap();
             let n: usize = args[3].parse().unwrap();
             props::c03::print_batch(seed, n, args.get(4).map(|s| s == "reverse").unwrap_or(false));
+        }
+        Some("fresh") => {
+            // fresh <case.json> : one detection as the first (and only) call of a new process – the answer no history can have influenced
+            let (b, s) = replay_case(&args[2]);
+            println!("FRESH {}", detect::real_detect(&b, &s).show());
         }
         Some("prop") => {
             // prop <id> <quick|thorough> <seed> [replay.json]
